@@ -246,6 +246,7 @@ class ReadableStream(io.RawIOBase):
         self.sdo_client = sdo_client
         self._toggle = 0
         self.pos = 0
+        self._pending = b""
 
         logger.debug("Reading 0x%04X:%02X from node %d", index, subindex,
                      sdo_client.rx_cobid - 0x600)
@@ -289,6 +290,10 @@ class ReadableStream(io.RawIOBase):
         :returns: 1 - 7 bytes of data or no bytes if EOF.
         :rtype: bytes
         """
+        if self._pending:
+            # Data left over from a readinto() with a small buffer
+            data, self._pending = self._pending, b""
+            return data
         if self._done:
             return b""
         if self.exp_data is not None:
@@ -320,8 +325,11 @@ class ReadableStream(io.RawIOBase):
         and return the number of bytes read.
         """
         data = self.read(7)
-        b[:len(data)] = data
-        return len(data)
+        size = min(len(b), len(data))
+        b[:size] = data[:size]
+        # Keep what did not fit for the next read
+        self._pending = data[size:]
+        return size
 
     def readable(self):
         return True
@@ -475,6 +483,7 @@ class BlockUploadStream(io.RawIOBase):
         self._server_crc = None
         self._ackseq = 0
         self._error = False
+        self._pending = b""
 
         logger.debug("Reading 0x%04X:%02X from node %d", index, subindex,
                      sdo_client.rx_cobid - 0x600)
@@ -516,6 +525,10 @@ class BlockUploadStream(io.RawIOBase):
         :returns: 1 - 7 bytes of data or no bytes if EOF.
         :rtype: bytes
         """
+        if self._pending:
+            # Data left over from a readinto() with a small buffer
+            data, self._pending = self._pending, b""
+            return data
         if self._done:
             return b""
         if size is None or size < 0:
@@ -610,8 +623,11 @@ class BlockUploadStream(io.RawIOBase):
         and return the number of bytes read.
         """
         data = self.read(7)
-        b[:len(data)] = data
-        return len(data)
+        size = min(len(b), len(data))
+        b[:size] = data[:size]
+        # Keep what did not fit for the next read
+        self._pending = data[size:]
+        return size
 
     def readable(self):
         return True
